@@ -202,7 +202,7 @@ def native_playback(scratch, h, build, test_src, known, release=False):
     filtered_copy(h["file"], hcopy, {h["fn"]}, known, extra_tail="\n" + test_src)
     mod = module_of(h["file"])
     mdir = os.path.join(pdir, "mirror")
-    mirror.make_mirror(mdir, {mod: hcopy})
+    mirror.make_mirror(mdir, {mod: hcopy}, playback_hook=True)
     bcfg = BUILDS[build]
     cmd = ["cargo", "kani", "playback", "-Z", "concrete-playback"]
     if bcfg["no_default"]:
@@ -257,7 +257,7 @@ def run_check(pid, tier, only=None, keep=False, parallel=None):
             smt_dir = os.path.join(scratch, "smt")
             os.makedirs(smt_dir)
             smt_env = dict(os.environ)
-            smt_env["VERIF_KNOWN"] = ",".join(k for k, v in known.items() if v["prop"] == pid)
+            smt_env["VERIF_KNOWN"] = ",".join(known_all.keys())
             smt_proc = subprocess.Popen(["python3-vt", os.path.join(VERIF, "lib", "smtcheck.py"), spec["smt"], tier, str(seed),
                                          smt_dir, smt_out], stdout=smt_log, stderr=subprocess.STDOUT, cwd=VERIF, env=smt_env)
         allh = discover(gen_dirs)
@@ -437,7 +437,7 @@ def run_check(pid, tier, only=None, keep=False, parallel=None):
                     key = "smt:%s:/%s/%s" % (r["mode"], r["src"], r["flags"])
                     if r["result"] in ("pass", "expensive") and not r.get("kf"):
                         continue
-                    kf = [k for k, v in known.items() if v["prop"] == pid and v.get("what", "").find(key) >= 0]
+                    kf = [k for k, v in known_all.items() if v.get("what", "").find(key) >= 0]
                     if r.get("kf") and r["kf"] in known:
                         kf = [r["kf"]]
                         if r["result"] == "pass":
@@ -446,7 +446,7 @@ def run_check(pid, tier, only=None, keep=False, parallel=None):
                         continue
                     if r["result"] == "fail":
                         if kf:
-                            known_lines.append("KNOWN-FINDING: property=%s %s" % (pid, known[kf[0]]["what"]))
+                            known_lines.append("KNOWN-FINDING: property=%s %s" % (pid, known_all[kf[0]]["what"]))
                             r["known_finding"] = kf[0]
                             continue
                         os.makedirs(os.path.join(VERIF, "replays"), exist_ok=True)
